@@ -55,7 +55,9 @@ func (c *Ctx) handlerMachine() *fold.Machine {
 	copyModel := func(name string, srcIdx int, bounded func(cl *fold.Call) string) fold.Model {
 		return func(cl *fold.Call) fold.Val {
 			cl.M.Emit(fold.Effect{Kind: "call", Name: name, Args: cl.Args, Note: bounded(cl)})
-			return fold.Tuple{fold.Int{Lo: 0, Hi: fold.MaxInt64}, errChoice(cl.M, "copy.err", "copy-error")}
+			// the copy fails with an error of the source / destination, or (CopyN) with io.EOF when the
+			// source ends before the announced length
+			return fold.Tuple{fold.Int{Lo: 0, Hi: fold.MaxInt64}, errChoice(cl.M, "copy.err", "copy-error", "global:io.EOF")}
 		}
 	}
 	none := func(cl *fold.Call) string { return "" }
@@ -351,13 +353,29 @@ func handlerRules(c *Ctx, prop string) {
 				failed := r.p.Chose("copy.err") > 0
 				fl := r.p.Calls("cw.Flush")
 				if failed {
-					if len(fl) != 0 || e != "copy-error" {
-						problems = append(problems, "a failed payload copy must be returned without sending a pong")
+					want := []string{"", "copy-error", "global:io.EOF"}[r.p.Chose("copy.err")]
+					if len(fl) != 0 || (e != want && !(want == "global:io.EOF" && e == "global:io.ErrUnexpectedEOF")) {
+						problems = append(problems, "a failed payload copy (error, or the source ending before the announced length) must be returned without sending a pong: got "+e+fmt.Sprintf(" after %d flushes", len(fl)))
 					}
 					continue
 				}
 				if len(fl) != 1 {
 					problems = append(problems, "pong is not flushed exactly once")
+				}
+				// the pooled buffer holds the payload plus the header of the pong that is sent
+				// (masked iff this side is the client), not of the ping that was received
+				for _, g := range r.p.Calls("pool.Get") {
+					sz, _ := g.Args[0].(fold.Int)
+					wantOff := int64(2)
+					if r.in.client {
+						wantOff = 6
+					}
+					switch {
+					case sz.In == 1 && sz.Off == wantOff:
+					case sz.IsConst() && r.in.lenCell.IsConst() && sz.Const() == r.in.lenCell.Const()+wantOff:
+					default:
+						problems = append(problems, fmt.Sprintf("pong buffer is %s bytes, want Length+%d (payload plus the header of the reply, masked=%v) [%s]", fold.Show(sz), wantOff, r.in.client, r.in))
+					}
 				}
 				if (r.p.Chose("cwflush.err") > 0) != (e == "cwflush-error") {
 					problems = append(problems, "pong flush error is lost: "+e)
